@@ -3,7 +3,8 @@
    the SafeDurationCast statement. *)
 From BS Require Import Base ChronoSpec ChronoModel ChronoArith ChronoDecimal ChronoSweep ChronoCalendar ChronoYear
   ChronoSafe ChronoSafeAdd ChronoText ChronoTp ChronoTpParse ChronoTpRt ChronoTs ChronoRefute
-  ChronoDur ChronoDurPrint ChronoDurParse ChronoDurRt ChronoClassify ChronoClassify2 ChronoClassify3 ChronoDurClassify ChronoReject ChronoTotal ChronoDurReject.
+  ChronoDur ChronoDurPrint ChronoDurParse ChronoDurRt ChronoClassify ChronoClassify2 ChronoClassify3 ChronoDurClassify ChronoReject ChronoTotal ChronoDurReject ChronoWide.
+From BS Require Import UtfSpec UtfModel.
 From Coq Require Import Lia.
 Local Open Scope Z_scope.
 
@@ -228,3 +229,41 @@ Proof. split; [exact K41_lenient | exact (proj1 c15_tp_classify_refuted)]. Qed.
 
 Lemma c15_K42_loose : dur_loose text_K42 /\ ~ dur_grammar text_K42.
 Proof. split; [exact K42_loose | exact (proj1 (proj1 c15_dur_classify_refuted))]. Qed.
+
+(* ------------------------------------------------------------------ C15, wide-string entry points *)
+
+Lemma c15_wide_exact w P R cps : Forall scalar cps ->
+  tp_parse_wide w P R (encs w cps) = tp_parse P R (encs W8 cps) /\
+  dur_parse_wide w P R (encs w cps) = dur_parse P R (encs W8 cps).
+Proof. intros H. exact (conj (tp_wide_exact w P R cps H) (dur_wide_exact w P R cps H)). Qed.
+
+Lemma c15_width_independent w1 w2 P R cps : Forall scalar cps ->
+  tp_parse_wide w1 P R (encs w1 cps) = tp_parse_wide w2 P R (encs w2 cps) /\
+  dur_parse_wide w1 P R (encs w1 cps) = dur_parse_wide w2 P R (encs w2 cps).
+Proof. intros H. exact (conj (tp_width_independent w1 w2 P R cps H) (dur_width_independent w1 w2 P R cps H)). Qed.
+
+Lemma c15_wide_ascii w P R s : Forall (fun u => (u < 0x80)%N) s ->
+  tp_parse_wide w P R s = tp_parse P R s /\ dur_parse_wide w P R s = dur_parse P R s.
+Proof. intros H. exact (conj (tp_wide_ascii w P R s H) (dur_wide_ascii w P R s H)). Qed.
+
+Lemma c15_wide_total w P R units :
+  (c14_rep P R ->
+     tp_parse_wide w P R units = Err InvalidArgument \/ tp_parse_wide w P R units = Err OutOfRange \/
+     exists v, tp_parse_wide w P R units = Ok v /\ fits R v = true) /\
+  (rep2 R ->
+     dur_parse_wide w P R units = Err InvalidArgument \/ dur_parse_wide w P R units = Err OutOfRange \/
+     exists v, dur_parse_wide w P R units = Ok v /\ fits R v = true /\ dur_loose (narrow w units)).
+Proof. exact (conj (tp_wide_total w P R units) (dur_wide_total w P R units)). Qed.
+
+(* ------------------------------------------------------------------ C15, uint64 durations *)
+
+Lemma c15_dur_classify_u64 P f : df_wf f -> df_neg f = false -> dur_split P f = false ->
+  dur_parse P U64 (df_render f) = dur_expected P U64 f.
+Proof. intros Hwf Hn Hs. apply dur_classify_grammar_d; auto. right. auto. Qed.
+
+Lemma c15_dur_value_or_range_u64 P f : df_wf f -> df_neg f = false ->
+  dur_parse P U64 (df_render f) = dur_expected P U64 f \/ dur_parse P U64 (df_render f) = Err OutOfRange.
+Proof. intros Hwf Hn. apply dur_classify_weak_d; auto. right. auto. Qed.
+
+Lemma c15_dur_neg_u64 P f : df_wf f -> df_neg f = true -> dur_parse P U64 (df_render f) = Err OutOfRange.
+Proof. intros Hwf Hn. apply dur_parse_neg_unsigned; auto. Qed.
